@@ -161,7 +161,7 @@ def impl_hist(case):
 
 def job(j):
     tag, comp, cases = j
-    return tag, core.eval_cases(comp, cases, impl_hist)
+    return tag, core.eval_cases(comp, cases, impl_hist, repeat=40)
 
 
 def random_history(rng):
@@ -265,6 +265,18 @@ def copy_vs_constructor(out, rng):
             sets = [{a: v} for a in names for v in bad + good]
             for _ in range(20):
                 sets.append({a: rng.choice(bad + good + good) for a in rng.sample(names, min(len(names), rng.randrange(2, 4)))})
+            # a value that was accepted, then its twins of another type (equal to it, and hashing like it): what was accepted before must
+            # not vouch for them
+            from decimal import Decimal
+            from fractions import Fraction
+            for a, v in list(vars(m).items()):
+                if a == 'type':
+                    continue
+                if isinstance(v, int) and not isinstance(v, bool):
+                    for w in (v, 5, 100):
+                        sets += [{a: w}, {a: float(w)}, {a: Fraction(w)}, {a: Decimal(w)}, {a: complex(w)}]
+                elif isinstance(v, (tuple, list)) and a == 'data':
+                    sets += [{a: (4, 5, 6)}, {a: (4.0, 5.0, 6.0)}, {a: [Fraction(4), 5, 6]}, {a: tuple(v)}, {a: tuple(float(x) for x in v) or (0.0,)}]
             for ov in sets:
                 n += 1
                 c = _outcome(lambda: fm.copy(**ov))
